@@ -442,8 +442,9 @@ def thread_parts(pid: str, tier: str):
     if pid == "C16":
         parts.append(Part("two-threads-one-dag", P(run_threads, TCfg(mode="calls", threads=2)), {"threads": 2, "N": 3, "shapes": 3, "granularity": "every alternation of the two threads at node entries", "setup": "optional setup node, run before"},
                           900, 6, ["w_interleaved"], THREAD_FUNCS))
-        parts.append(Part("build-vs-other-thread", P(run_threads, TCfg(mode="build")), {"pause points": 4, "operations of the other thread": "call a DAG (default supplied / omitted), call a decorated function (ignore / error behaviour), build another DAG"},
-                          900, 6, ["w_build", "w_call_dag", "w_call_xn_ignore"], THREAD_FUNCS))
+        parts.append(Part("build-vs-other-thread", P(run_threads, TCfg(mode="build")), {"pause points": 4, "operations of the other thread": "call a DAG (default supplied / omitted), call a decorated function (ignore / error behaviour), build another DAG",
+                           "variants": "the paused build embeds a sub-DAG; the other thread had a failed description before; one build pauses for 6.5 s"},
+                          900, 6, ["w_build", "w_call_dag", "w_call_xn_ignore", "w_long_pause"], THREAD_FUNCS))
         if not q:
             parts.append(Part("three-threads-one-dag", P(run_threads, TCfg(mode="calls", threads=3, N=3)), {"threads": 3, "N": 3}, 2400, 8, ["w_interleaved"], THREAD_FUNCS))
     return parts
